@@ -549,6 +549,33 @@ def misc_hooks() -> dict:
     return f
 
 
+def report_sections() -> list[str]:
+    """the `sections` argument of the ExecutionReport built by `from_task` / `from_task_and_exception` (reports.py)"""
+    mod = _host()._parse("reports.py")
+    cls = next((n for n in mod.body if isinstance(n, ast.ClassDef) and n.name == "ExecutionReport"), None)
+    if cls is None:
+        raise _err("reports.py: class ExecutionReport not found")
+    fields = [b.target.id for b in cls.body if isinstance(b, ast.AnnAssign) and isinstance(b.target, ast.Name)
+              and "ClassVar" not in _u(b.annotation)]
+    if fields[:4] != ["task", "outcome", "exc_info", "sections"]:
+        raise _err(f"ExecutionReport: fields {fields}")
+    out = []
+    for name in ("from_task", "from_task_and_exception"):
+        fn = next((b for b in cls.body if isinstance(b, ast.FunctionDef) and b.name == name), None)
+        if fn is None:
+            raise _err(f"ExecutionReport.{name} not found")
+        body = _norm(_body(fn), f"ExecutionReport.{name}")
+        if len(body) != 1 or not (isinstance(body[0], ast.Return) and isinstance(body[0].value, ast.Call) and _u(body[0].value.func) == "cls"):
+            raise _err(f"ExecutionReport.{name}: not a single `return cls(…)`")
+        c = body[0].value
+        kw = {k.arg: k.value for k in c.keywords}
+        sec = c.args[3] if len(c.args) >= 4 else kw.get("sections")
+        if sec is None:
+            raise _err(f"ExecutionReport.{name}: no sections argument")
+        out.append(_u(sec))
+    return out
+
+
 def _split(tok: str):
     """'assert:a,b' -> ('assert', ['a','b']); 'ret-if:x' -> ('ret-if', ['x']); 'state:=x' -> ('state', ['x']); 'sys.m' -> ('sys', ['m']);
     'write:save:utf-8' -> ('write:save', ['utf-8']); others -> (tok, [])"""
@@ -641,5 +668,7 @@ def capgen_section() -> list[str]:
     L.append(f"def databaseUnconfigure : List String := {strs(mh['database_unconfigure'])}")
     L.append(f"def warningsIsolated : Bool := {b(mh['warnings_isolated'])}")
     L.append(f"def buildUnconfigureUnconditional : Bool := {b(mh['build_unconfigure_unconditional'])}")
+    L.append("/-- what `ExecutionReport.from_task` / `from_task_and_exception` (reports.py) pass as the report's `sections` -/")
+    L.append(f"def reportSections : List String := {strs(report_sections())}")
     L += ["", "end Cap", ""]
     return L
